@@ -476,7 +476,36 @@ impl Plugin for MemberOf {
             cand,
             &ident_internal,
             force_dyngroup_cand_update,
-        )
+        )?;
+
+        // A group that was put into the conflict state by this replication keeps its member
+        // list, and refint strips the references to it, but the memberships it used to confer
+        // (including the indirect ones) are gone: its members have to be recomputed. The
+        // conflicting entry may be a local one that is not part of the candidate set, so look
+        // the conflicted entries up rather than relying on pre/post candidates.
+        if conflict_uuids.is_empty() {
+            return Ok(());
+        }
+        let conflict_entries = qs.internal_search(filter_all!(f_or(
+            conflict_uuids
+                .iter()
+                .copied()
+                .map(|u| f_eq(Attribute::Uuid, PartialValue::Uuid(u)))
+                .collect()
+        )))?;
+        let mut affected_uuids = BTreeSet::new();
+        for entry in conflict_entries.iter() {
+            if let Some(members) = entry.get_ava_refer(Attribute::Member) {
+                affected_uuids.extend(members);
+            }
+            if let Some(members) = entry.get_ava_refer(Attribute::DynMember) {
+                affected_uuids.extend(members);
+            }
+        }
+        if affected_uuids.is_empty() {
+            return Ok(());
+        }
+        apply_memberof(qs, affected_uuids)
     }
 
     #[instrument(level = "debug", name = "memberof_post_modify", skip_all)]
